@@ -14,17 +14,44 @@
 //!   prskip s                                  -> `ok` | `panic`          (fresh ParentReadyTracker, mark_skipped(s); s >= 2^32)
 //!   finimpl s d                               -> `ok` | `panic`          (fresh FinalityTracker: add_parent((s, h1), (s-d, h2)),
 //!                                                 mark_fast_finalized((s, h1)) - the implicit-skip loop; s >= 2^32, 1 <= d <= 3)
-//! oracle keys: `mi-panic` (a panic although the exact result fits the machine type and the call is not documented to
+//!   timeouts s                                -> `c<s>@<ms> t<s>@<ms> ..` | `panic`  (a real Votor under a paused tokio clock:
+//!                                                 verif_set_timeouts(s), then the clock advances 1 ms at a time; `x@ms` = the
+//!                                                 timeout event x was queued ms milliseconds after the call)
+//!   deltas                                    -> `<DELTA_TIMEOUT ns> <DELTA_BLOCK ns> <DELTA_FIRST_SLICE ns>`
+//!   dadd s1 n1 s2 n2 | dsub .. | dmul s n k | dms ms -> `<secs>.<nanos>` | `panic`  (Duration +, saturating_sub, * u32, from_millis)
+//!   sadd a b | ssub a b | smul a b | sdivceil a b -> `<u64>` | `panic`      (Stake + - * div_ceil)
+//!   fcmp n1 d1 n2 d2                          -> `lt|eq|gt <eq?>`        (Fraction cmp / ==)
+//!   windows k                                 -> the first k elements of `Slot::windows()`
+//!   winjump j m                               -> `Slot::windows()`: nth(j), then m times next()
+//! oracle keys: `mi-timeout` (set_timeouts: the timeout of the i-th slot of a window is not 3*DELTA + (i+1)*DELTA_BLOCK
+//! after the call, not in slot order, the crashed-leader timeout not at 3*DELTA + DELTA_FIRST_SLICE, or a panic for a
+//! window start), `mi-panic` (a panic although the exact result fits the machine type and the call is not documented to
 //! panic there), `mi-value` (a result that differs from the exact one / violates a window law).
 use std::num::NonZeroU64;
+use std::sync::Arc;
+use std::time::Duration;
 
 use ag_harness::*;
-use alpenglow::consensus::EpochInfo;
+use alpenglow::consensus::{ConsensusMessage, EpochInfo, Votor};
+use alpenglow::consensus::{BlockstoreEvent, PoolEvent};
 use alpenglow::consensus::pool_verif::{VerifFinalityTracker, VerifParentReadyTracker};
 use alpenglow::crypto::{aggsig, signature};
 use alpenglow::network::dontcare_sockaddr;
 use alpenglow::types::{Fraction, SLOTS_PER_EPOCH, SLOTS_PER_WINDOW, Slot};
-use alpenglow::{Stake, ValidatorIndex, ValidatorInfo};
+use alpenglow::{All2All, Stake, ValidatorIndex, ValidatorInfo};
+
+struct NullA2A;
+impl All2All for NullA2A {
+    async fn broadcast(&self, _msg: &ConsensusMessage) -> std::io::Result<()> {
+        Ok(())
+    }
+    async fn receive(&self) -> std::io::Result<ConsensusMessage> {
+        std::future::pending().await
+    }
+}
+fn dur(d: &Duration) -> String {
+    format!("{}.{}", d.as_secs(), d.subsec_nanos())
+}
 
 const W: u64 = SLOTS_PER_WINDOW;
 const MAXU: u128 = u64::MAX as u128;
@@ -297,6 +324,213 @@ impl Cx {
     }
 }
 
+impl Cx {
+    /// the real `set_timeouts` under a paused clock: when is which timeout queued?
+    fn timeouts_op(&mut self, rt: &tokio::runtime::Runtime, s: u64) {
+        let op = format!("timeouts {s}");
+        let sk = aggsig::SecretKey::new(&mut Rng::new(11));
+        let (_ptx, prx) = tokio::sync::mpsc::channel::<PoolEvent>(4);
+        let (_btx, brx) = tokio::sync::mpsc::channel::<BlockstoreEvent>(4);
+        let mut votor = {
+            let _g = rt.enter();
+            Votor::new(ValidatorIndex::new(0), sk, prx, brx, Arc::new(NullA2A))
+        };
+        // the timers of `Votor::new` (window 0) run out first
+        rt.block_on(async { tokio::time::sleep(Duration::from_secs(30)).await });
+        let _ = votor.verif_drain_timeouts();
+        let r = {
+            let _g = rt.enter();
+            catch(|| votor.verif_set_timeouts(Slot::new(s)))
+        };
+        let is_start = s % W == 0;
+        let msg = r.as_ref().err().cloned().unwrap_or_default();
+        self.rec.oracle(r.is_ok() || !is_start, "mi-timeout", || format!("`{op}` panicked ({msg}) for a window start"));
+        if r.is_err() {
+            self.out(op, "panic".into());
+            return;
+        }
+        // the spawned task starts (and requests its first sleep) at time 0
+        rt.block_on(async {
+            for _ in 0..4 {
+                tokio::task::yield_now().await;
+            }
+        });
+        let mut got: Vec<(u64, bool, u64)> = Vec::new();
+        let mut ms = 0u64;
+        while ms < 6000 && got.len() < W as usize + 1 {
+            rt.block_on(async {
+                tokio::time::advance(Duration::from_millis(1)).await;
+                for _ in 0..4 {
+                    tokio::task::yield_now().await;
+                }
+            });
+            ms += 1;
+            for (slot, crashed) in votor.verif_drain_timeouts() {
+                got.push((slot.inner(), crashed, ms));
+            }
+        }
+        // the property, from the protocol's formula and the public constant DELTA only
+        let [dt, db, df] = Votor::<NullA2A>::verif_deltas();
+        let (dt, db, df) = (dt.as_millis() as u64, db.as_millis() as u64, df.as_millis() as u64);
+        let base = 3 * alpenglow::consensus::DELTA.as_millis() as u64;
+        let mut ok = got.len() == W as usize + 1 && dt == base && got[0] == (s, true, base + df);
+        for i in 0..W {
+            ok = ok && got.get(i as usize + 1) == Some(&(s + i, false, base + (i + 1) * db));
+        }
+        ok = ok && got.windows(2).all(|w| w[0].2 < w[1].2) && got.iter().all(|g| g.2 >= base);
+        self.rec.oracle(ok, "mi-timeout", || format!("`{op}`: (slot, crashed, ms) = {got:?}, DELTA_TIMEOUT {dt} (3*DELTA = {base}), DELTA_BLOCK {db}, DELTA_FIRST_SLICE {df}"));
+        let out = got.iter().map(|(sl, c, ms)| format!("{}{sl}@{ms}", if *c { "c" } else { "t" })).collect::<Vec<_>>().join(" ");
+        self.out(op, out);
+    }
+
+    fn deltas_op(&mut self) {
+        let [dt, db, df] = Votor::<NullA2A>::verif_deltas();
+        self.value("deltas", df <= db && dt == alpenglow::consensus::DELTA * 3, || format!("{dt:?} {db:?} {df:?}"));
+        self.out("deltas".into(), format!("{} {} {}", dt.as_nanos(), db.as_nanos(), df.as_nanos()));
+    }
+
+    fn dur_ops(&mut self, s1: u64, n1: u32, s2: u64, n2: u32, k: u32) {
+        const NPS: u128 = 1_000_000_000;
+        let (a, b) = (Duration::new(s1, n1), Duration::new(s2, n2));
+        let (an, bn) = (s1 as u128 * NPS + n1 as u128, s2 as u128 * NPS + n2 as u128);
+        let lim = (MAXU + 1) * NPS;
+        let check = |x: &Duration, e: u128| x.as_secs() as u128 * NPS + x.subsec_nanos() as u128 == e && x.subsec_nanos() < NPS as u32;
+
+        let op = format!("dadd {s1} {n1} {s2} {n2}");
+        let r = catch(|| a + b);
+        self.judge(&op, &r, an + bn < lim);
+        if let Ok(x) = &r {
+            self.value(&op, check(x, an + bn), || format!("got {x:?}"));
+        }
+        self.out(op, r.as_ref().map(dur).unwrap_or_else(|_| "panic".into()));
+
+        let op = format!("dsub {s1} {n1} {s2} {n2}");
+        let r = catch(|| a.saturating_sub(b));
+        self.judge(&op, &r, true);
+        if let Ok(x) = &r {
+            self.value(&op, check(x, an.saturating_sub(bn)), || format!("got {x:?}"));
+        }
+        self.out(op, r.as_ref().map(dur).unwrap_or_else(|_| "panic".into()));
+
+        let op = format!("dmul {s1} {n1} {k}");
+        let r = catch(|| a * k);
+        // an * k < 2^94 * 2^32: fits u128
+        self.judge(&op, &r, an * (k as u128) < lim);
+        if let Ok(x) = &r {
+            self.value(&op, check(x, an * k as u128), || format!("got {x:?}"));
+        }
+        self.out(op, r.as_ref().map(dur).unwrap_or_else(|_| "panic".into()));
+
+        let op = format!("dms {s1}");
+        let r = catch(|| Duration::from_millis(s1));
+        self.judge(&op, &r, true);
+        if let Ok(x) = &r {
+            self.value(&op, check(x, s1 as u128 * 1_000_000), || format!("got {x:?}"));
+        }
+        self.out(op, r.as_ref().map(dur).unwrap_or_else(|_| "panic".into()));
+    }
+
+    fn stake_ops(&mut self, a: u64, b: u64) {
+        let (sa, sb) = (Stake::new(a), Stake::new(b));
+        let (a1, b1) = (a as u128, b as u128);
+
+        let op = format!("sadd {a} {b}");
+        let r = catch(|| (sa + sb).inner());
+        self.judge(&op, &r, a1 + b1 <= MAXU);
+        if let Ok(x) = r {
+            let mut acc = sa;
+            let r2 = catch(move || { acc += sb; acc.inner() });
+            self.value(&op, x as u128 == a1 + b1 && r2 == Ok(x) && sa.checked_add(sb).map(|v| v.inner()) == Some(x), || format!("got {x}"));
+        } else {
+            self.value(&op, sa.checked_add(sb).is_none(), || "checked_add is Some although + panics".into());
+        }
+        self.out(op, show(&r));
+
+        let op = format!("ssub {a} {b}");
+        let r = catch(|| (sa - sb).inner());
+        self.judge(&op, &r, a >= b);
+        if let Ok(x) = r {
+            let mut acc = sa;
+            let r2 = catch(move || { acc -= sb; acc.inner() });
+            self.value(&op, x as u128 + b1 == a1 && r2 == Ok(x), || format!("got {x}"));
+        }
+        self.out(op, show(&r));
+
+        let op = format!("smul {a} {b}");
+        let r = catch(|| (sa * b).inner());
+        let fits = mul_limbs(a, b)[2] == 0 && mul_limbs(a, b)[3] == 0;
+        self.judge(&op, &r, fits);
+        if let Ok(x) = r {
+            let l = mul_limbs(a, b);
+            self.value(&op, fits && x == (l[0] as u64 | (l[1] as u64) << 32), || format!("got {x}"));
+        }
+        self.out(op, show(&r));
+
+        let op = format!("sdivceil {a} {b}");
+        let r = catch(|| sa.div_ceil(b).inner());
+        self.judge(&op, &r, b != 0);
+        if let Ok(x) = r {
+            // the least x with x * b >= a
+            let x1 = x as u128;
+            self.value(&op, x1 * b1 >= a1 && (x == 0 || (x1 - 1) * b1 < a1), || format!("got {x}"));
+        }
+        self.out(op, show(&r));
+    }
+
+    fn fcmp_op(&mut self, n1: u64, d1: u64, n2: u64, d2: u64) {
+        use std::cmp::Ordering::*;
+        let op = format!("fcmp {n1} {d1} {n2} {d2}");
+        let f1 = Fraction::new(n1, NonZeroU64::new(d1).expect("den"));
+        let f2 = Fraction::new(n2, NonZeroU64::new(d2).expect("den"));
+        let r = catch(|| (f1.cmp(&f2), f1 == f2, f1.partial_cmp(&f2), f2.cmp(&f1)));
+        self.judge(&op, &r, true);
+        if let Ok((o, e, p, rev)) = &r {
+            let (l, rr) = (mul_limbs(n1, d2), mul_limbs(n2, d1));
+            let exact = if l == rr { Equal } else if ge_limbs(l, rr) { Greater } else { Less };
+            // consistent with is_met: n1/d1 >= n2/d2 iff Fraction(n2/d2).is_met(n1, d1)
+            let met = catch(|| f2.is_met(n1, d1));
+            self.value(&op, *o == exact && *e == (exact == Equal) && *p == Some(exact) && *rev == exact.reverse() && met == Ok(exact != Less),
+                || format!("got {o:?} eq {e} partial {p:?} reverse {rev:?} is_met {met:?}, exact {exact:?}"));
+        }
+        let out = match &r {
+            Ok((o, e, ..)) => format!("{} {e}", match o { Less => "lt", Equal => "eq", Greater => "gt" }),
+            Err(_) => "panic".into(),
+        };
+        self.out(op, out);
+    }
+
+    fn windows_op(&mut self, k: u64) {
+        let op = format!("windows {k}");
+        let r = catch(|| Slot::windows().take(k as usize).collect::<Vec<_>>());
+        self.judge(&op, &r, true);
+        if let Ok(v) = &r {
+            let ok = v.len() as u64 == k && v.iter().enumerate().all(|(i, x)| x.inner() == i as u64 * W && x.is_start_of_window());
+            self.value(&op, ok, || format!("got {}", slots(v)));
+        }
+        self.out(op, r.as_ref().map(|v| slots(v)).unwrap_or_else(|_| "panic".into()));
+    }
+
+    /// `nth(j)` (1 <= j, j * W < 2^64), then m times `next()`
+    fn winjump_op(&mut self, j: u64, m: u64) {
+        let op = format!("winjump {j} {m}");
+        let r = catch(|| {
+            let mut it = Slot::windows();
+            let mut v = vec![it.nth(j as usize).expect("infinite")];
+            for _ in 0..m {
+                v.push(it.next().expect("infinite"));
+            }
+            v
+        });
+        // every window start (j + m) * W that is a u64 must be yielded; the call after the last one panics
+        self.judge(&op, &r, (j as u128 + m as u128) * (W as u128) <= MAXU);
+        if let Ok(v) = &r {
+            let ok = v.len() as u64 == m + 1 && v.iter().enumerate().all(|(i, x)| x.inner() as u128 == (j as u128 + i as u128) * W as u128);
+            self.value(&op, ok, || format!("got {}", slots(v)));
+        }
+        self.out(op, r.as_ref().map(|v| slots(v)).unwrap_or_else(|_| "panic".into()));
+    }
+}
+
 fn extremes(rng: &mut Rng, thorough: bool) -> Vec<u64> {
     let mut v: Vec<u64> = Vec::new();
     for k in 0..=(2 * W + 2) {
@@ -445,6 +679,84 @@ fn main() {
         let c = cx.class;
         cx.rec.end_case(c, true);
     }
+    // 3. votor.rs set_timeouts + Duration arithmetic
+    let rt = tokio::runtime::Builder::new_current_thread().enable_time().start_paused(true).build().expect("runtime");
+    let mut tslots: Vec<u64> = vec![0, 1, W - 1, W, W + 1, 2 * W, 5 * W, u64::MAX - (W - 1), u64::MAX, u64::MAX - W, u64::MAX - (2 * W - 1), 1 << 32, 1 << 63, (1 << 63) + W];
+    for _ in 0..if args.thorough { 200 } else { 12 } {
+        let x = *rng.pick(&ext);
+        tslots.push(if rng.chance(3, 4) { x / W * W } else { x });
+    }
+    for chunk in tslots.chunks(4) {
+        cx.rec.begin_case("timeouts");
+        cx.class = 0;
+        cx.deltas_op();
+        for &s in chunk {
+            cx.timeouts_op(&rt, s);
+        }
+        let c = cx.class;
+        cx.rec.end_case(c, true);
+    }
+    let nanos: [u32; 9] = [0, 1, 999_999_999, 500_000_000, 499_999_999, 500_000_001, 10_000_000, 250_000_000, 400_000_000];
+    for _ in 0..if args.thorough { 2000 } else { 150 } {
+        cx.rec.begin_case("duration");
+        cx.class = 0;
+        for _ in 0..6 {
+            let (s1, s2) = (*rng.pick(&ext), if rng.chance(1, 2) { *rng.pick(&ext) } else { rng.below(4) });
+            let (n1, n2) = (*rng.pick(&nanos), if rng.chance(1, 2) { *rng.pick(&nanos) } else { rng.below(1_000_000_000) as u32 });
+            let k = match rng.below(4) { 0 => rng.below(5) as u32, 1 => u32::MAX - rng.below(2) as u32, 2 => (u64::MAX / s1.max(1)).min(u32::MAX as u64) as u32, _ => rng.next() as u32 };
+            let (s1, n1) = if rng.chance(1, 4) { (rng.below(3), n1) } else { (s1, n1) };
+            cx.dur_ops(s1, n1, s2, n2, k);
+        }
+        let c = cx.class;
+        cx.rec.end_case(c, true);
+    }
+
+    // 4. stake.rs, Fraction::cmp, Slot::windows
+    for _ in 0..if args.thorough { 2000 } else { 150 } {
+        cx.rec.begin_case("stake");
+        cx.class = 0;
+        for _ in 0..8 {
+            let a = *rng.pick(&ext);
+            let b = match rng.below(5) { 0 => *rng.pick(&ext), 1 => rng.below(4), 2 => u64::MAX / a.max(1) + rng.below(2), 3 => a.wrapping_add(rng.below(3)).wrapping_sub(1), _ => rng.next() >> rng.below(64) };
+            cx.stake_ops(a, b);
+        }
+        let c = cx.class;
+        cx.rec.end_case(c, true);
+    }
+    for _ in 0..if args.thorough { 2000 } else { 150 } {
+        cx.rec.begin_case("fcmp");
+        cx.class = 0;
+        for _ in 0..8 {
+            let (d1, d2) = (*rng.pick(&pool), *rng.pick(&pool));
+            let (n1, d1, n2, d2) = match rng.below(5) {
+                0 => (*rng.pick(&ext), d1, *rng.pick(&ext), d2),
+                // equal values with different representations (1/2 == 2/4)
+                1 => { let (n, d, k) = (rng.below(1 << 20), 1 + rng.below(1 << 20), 1 + rng.below(1 << 20)); (n, d, n * k, d * k) }
+                // neighbours at the top of the range
+                2 => (u64::MAX - rng.below(3), u64::MAX - rng.below(3), u64::MAX - rng.below(3), u64::MAX - rng.below(3)),
+                3 => { let n2 = ((*rng.pick(&ext) as u128 * d2 as u128) / d1 as u128).min(MAXU) as u64; (*rng.pick(&ext), d1, n2.wrapping_add(rng.below(3)).wrapping_sub(1), d2) }
+                _ => (rng.next(), d1, rng.next(), d2),
+            };
+            cx.fcmp_op(n1, d1, n2, d2);
+        }
+        let c = cx.class;
+        cx.rec.end_case(c, true);
+    }
+    cx.rec.begin_case("windows");
+    cx.class = 0;
+    for k in [0u64, 1, 2, 3, 10, 33] {
+        cx.windows_op(k);
+    }
+    // `Map` does not forward `nth`: the end of the u64 range cannot be reached on the real iterator (2^62 calls of
+    // `next`); jumps stay small, the end of the range is covered by the theorem `windows_panics_iff` only
+    for j in [1u64, 2, 7, 1000] {
+        for m in 0..=3 {
+            cx.winjump_op(j, m);
+        }
+    }
+    let c = cx.class;
+    cx.rec.end_case(c, true);
+
     let extra = serde_json::json!({ "values": ext.len() });
     cx.rec.finish(&args, extra);
 }
